@@ -1,4 +1,6 @@
 import ZV.Proofs.C30
+import ZV.Model.C30b
+import ZV.Generated.C30
 /-!
   C30 — TLS handshake messages and session states round-trip and reject truncation.
 
@@ -546,5 +548,205 @@ example : ValidCH exCH :=
    by simp [exCH, ClientHello.empty], by simp [exCH, ClientHello.empty], by simp [exCH, ClientHello.empty],
    by simp [exCH, ClientHello.empty]⟩
 example : (clientHello.ser exCH).isSome = true := by decide
+
+
+/-! ## second part — PSK-binder helpers of `clientHelloMsg`, the `raw` cache seen from the parse side, and the T1 tie
+    of the message-type / extension-number constants to the tags the codecs write -/
+
+/-! ### marshalWithoutBinders -/
+
+/-- whenever `marshalWithoutBinders` returns, the result is the prefix of the full `marshal` that is exactly
+    `bindersLen` (2 + Σ (1 + len binder)) bytes shorter — for EVERY hello (no domain hypothesis). -/
+theorem withoutBinders_prefix (m : ClientHello) (wb : Bytes) (h : marshalWithoutBinders m = .ok wb) :
+    ∃ full, clientHello.ser m = some full ∧ wb <+: full ∧ wb.length + bindersLen m.pskBinders = full.length := by
+  unfold marshalWithoutBinders at h
+  cases hs : clientHello.ser m with
+  | none => simp [hs] at h
+  | some full =>
+    simp only [hs] at h
+    split at h
+    · rename_i hle
+      cases h
+      refine ⟨full, rfl, List.take_prefix _ _, ?_⟩
+      simp only [List.length_take]
+      omega
+    · cases h
+
+/-- exact panic condition: the encoder panics, or the binders are longer than the whole message (slice bounds) -/
+theorem withoutBinders_panic_iff (m : ClientHello) :
+    marshalWithoutBinders m = .panic ↔
+      (clientHello.ser m = none ∨ ∃ full, clientHello.ser m = some full ∧ full.length < bindersLen m.pskBinders) := by
+  unfold marshalWithoutBinders
+  cases hs : clientHello.ser m with
+  | none => simp
+  | some full =>
+    simp only [Option.some.injEq, exists_eq_left', false_or, reduceCtorEq]
+    split
+    · rename_i hle
+      constructor
+      · intro h; cases h
+      · intro h; omega
+    · rename_i hle
+      constructor
+      · intro _; omega
+      · intro _; rfl
+
+/-- `marshalWithoutBinders` never reports an error (it returns or panics) -/
+theorem withoutBinders_no_err (m : ClientHello) : marshalWithoutBinders m ≠ .err := by
+  unfold marshalWithoutBinders
+  cases clientHello.ser m with
+  | none => simp
+  | some full => simp only; split <;> simp
+
+/-! ### updateBinders -/
+
+theorem sameLens_length : ∀ (a b : List Bytes), sameLens a b = true → a.length = b.length ∧ bindersLen a = bindersLen b
+  | [], [], _ => ⟨rfl, rfl⟩
+  | [], _ :: _, h => by simp [sameLens] at h
+  | _ :: _, [], h => by simp [sameLens] at h
+  | x :: a, y :: b, h => by
+    simp only [sameLens, Bool.and_eq_true, beq_iff_eq] at h
+    obtain ⟨h1, h2⟩ := sameLens_length a b h.2
+    exact ⟨by simp [h1], by simp [bindersLen, h.1, h2]⟩
+
+/-- what `updateBinders` does when it returns: the new binders have pairwise the lengths of the old ones, only
+    `pskBinders` changes, and a cached encoding keeps its length and everything before the last `bindersLen` bytes,
+    which are replaced by the `uint16`-prefixed list of `uint8`-prefixed new binders. -/
+theorem updateBinders_ok (m m' : ClientHello) (raw raw' : Option Bytes) (new : List Bytes)
+    (h : updateBinders m raw new = .ok (m', raw')) :
+    sameLens new m.pskBinders = true ∧ m' = { m with pskBinders := new } ∧
+    (raw = none → raw' = none) ∧
+    (∀ r, raw = some r → ∃ e, bindersEnc.ser new = some e ∧
+        raw' = some (r.take (r.length - bindersLen m.pskBinders) ++ e) ∧
+        (r.take (r.length - bindersLen m.pskBinders) ++ e).length = r.length) := by
+  unfold updateBinders at h
+  cases hl : sameLens new m.pskBinders with
+  | false => simp [hl] at h
+  | true =>
+    have hb := (sameLens_length _ _ hl).2
+    simp only [hl, Bool.not_true, Bool.false_eq_true, if_false] at h
+    cases raw with
+    | none =>
+      simp only [Res.ok.injEq, Prod.mk.injEq] at h
+      exact ⟨rfl, h.1.symm, fun _ => h.2.symm, fun r hr => by cases hr⟩
+    | some r =>
+      simp only at h
+      split at h
+      · cases he : bindersEnc.ser new with
+        | none => simp [he] at h
+        | some e =>
+          simp only [he] at h
+          split at h
+          · cases h
+          · rename_i hlen
+            simp only [Res.ok.injEq, Prod.mk.injEq] at h
+            refine ⟨rfl, h.1.symm, (fun hr => by cases hr), fun r0 hr => ?_⟩
+            cases hr
+            refine ⟨e, rfl, ?_, ?_⟩
+            · rw [← hb]; exact h.2.symm
+            · rw [← hb]; exact Classical.not_not.mp hlen
+      · cases h
+
+/-- binders of different lengths always panic (the two explicit `length mismatch` checks) -/
+theorem updateBinders_mismatch (m : ClientHello) (raw : Option Bytes) (new : List Bytes)
+    (h : sameLens new m.pskBinders = false) : updateBinders m raw new = .panic := by
+  simp [updateBinders, h]
+
+/-- without a cache, equal lengths suffice: no panic, the message just gets the new binders -/
+theorem updateBinders_nocache (m : ClientHello) (new : List Bytes) (h : sameLens new m.pskBinders = true) :
+    updateBinders m none new = .ok ({ m with pskBinders := new }, none) := by
+  simp [updateBinders, h]
+
+/-! ### the `raw` cache seen from the parse side -/
+
+/-- on the encoding of any value of a round-trip domain, the bytes cached by `unmarshal` are what a fresh `marshal`
+    of the parsed value produces (generic in the kind; the instances below name the two hello messages) -/
+theorem remarshal_canonical {α} (f : MFmt α) (D : α → Prop) (L : MLawful f D) (v : α) (bs : Bytes)
+    (hv : D v) (h : f.ser v = some bs) : remarshal f bs = some (some bs) := by
+  simp [remarshal, L.rt v bs hv h, h]
+
+theorem clientHello_remarshal (m : ClientHello) (bs : Bytes) (hv : ValidCH m) (h : clientHello.ser m = some bs) :
+    remarshal clientHello bs = some (some bs) := by
+  simp [remarshal, clientHello_par_ser m bs hv h, h]
+
+theorem serverHello_remarshal (m : ServerHello) (bs : Bytes) (hv : ValidSH m) (h : serverHello.ser m = some bs) :
+    remarshal serverHello bs = some (some bs) := by
+  simp [remarshal, serverHello_par_ser m bs hv h, h]
+
+/-- conversely the cache is NOT canonical in general: accepted inputs whose fresh encoding differs (the skipped
+    handshake header; the three body-less messages accept any four bytes).  Counter-examples, kept as proved facts. -/
+example : remarshal finished [99, 0, 0, 1, 7] = some (some [20, 0, 0, 1, 7]) := by decide
+example : remarshal helloRequest [0xd6, 0, 0, 0] = some (some [0, 0, 0, 0]) := by decide
+example : remarshal keyUpdate [7, 7, 7, 7, 1] = some (some [24, 0, 0, 1, 1]) := by decide
+
+/-! ### T1: the constants of tls/common.go are the tags the codecs write -/
+
+def firstByte (o : Option Bytes) : Option Nat := o.bind (fun b => b.head?.map UInt8.toNat)
+
+/-- first byte of every message kind with a handshake header = the generated `typeXxx` constant -/
+theorem message_type_tags :
+    [firstByte (helloRequest.ser ()), firstByte (clientHello.ser exCH), firstByte (serverHello.ser exSH),
+     firstByte (newSessionTicket.ser (0, [])), firstByte (newSessionTicketTLS13.ser (0, 0, [], [], 0)),
+     firstByte (endOfEarlyData.ser ()), firstByte (encryptedExtensions.ser []),
+     firstByte (certificate.ser []), firstByte (certificateTLS13.ser (⟨[], none, none⟩, false, false)),
+     firstByte (serverKeyExchange.ser []), firstByte ((certificateRequest false).ser ([1], [], [])),
+     firstByte (certificateRequestTLS13.ser ⟨false, false, [], [], []⟩),
+     firstByte (serverHelloDone.ser ()), firstByte ((certificateVerify false).ser (0, [])),
+     firstByte (clientKeyExchange.ser []), firstByte (finished.ser ((), [])),
+     firstByte (certificateStatus.ser ((), [1])), firstByte (keyUpdate.ser 0)]
+    = [some Gen.typeHelloRequest, some Gen.typeClientHello, some Gen.typeServerHello,
+       some Gen.typeNewSessionTicket, some Gen.typeNewSessionTicket,
+       some Gen.typeEndOfEarlyData, some Gen.typeEncryptedExtensions,
+       some Gen.typeCertificate, some Gen.typeCertificate,
+       some Gen.typeServerKeyExchange, some Gen.typeCertificateRequest, some Gen.typeCertificateRequest,
+       some Gen.typeServerHelloDone, some Gen.typeCertificateVerify,
+       some Gen.typeClientKeyExchange, some Gen.typeFinished,
+       some Gen.typeCertificateStatus, some Gen.typeKeyUpdate] := by decide
+
+/-- a ClientHello with every extension switched on -/
+def chAll : ClientHello :=
+  { vers := 771, random := List.replicate 32 1, sessionId := [], cipherSuites := [1], compressionMethods := [0],
+    serverName := [97], ocspStapling := true, supportedCurves := [29], supportedPoints := [0], ticketSupported := true,
+    sessionTicket := [], sigAlgs := [0x0804], sigAlgsCert := [0x0804], secureRenegotiationSupported := true,
+    secureRenegotiation := [], extendedRandomEnabled := true, extendedRandom := [1], extendedMasterSecret := true,
+    alpnProtocols := [[104]], scts := true, supportedVersions := [772], cookie := [1], keyShares := [(29, [1])],
+    earlyData := true, pskModes := [1], pskIdentities := [([1], 0)], pskBinders := [[2]] }
+
+/-- the extension numbers `clientHelloMsg.marshal` writes, in order, are the generated `extensionXxx` constants -/
+theorem clientHello_extension_tags :
+    (chExts chAll).map (fun es => es.map Prod.fst) =
+      some [Gen.extensionServerName, Gen.extensionStatusRequest, Gen.extensionSupportedCurves, Gen.extensionSupportedPoints,
+            Gen.extensionSessionTicket, Gen.extensionSignatureAlgorithms, Gen.extensionSignatureAlgorithmsCert,
+            Gen.extensionRenegotiationInfo, Gen.extensionALPN, Gen.extensionExtendedRandom, Gen.extensionExtendedMasterSecret,
+            Gen.extensionSCT, Gen.extensionSupportedVersions, Gen.extensionCookie, Gen.extensionKeyShare,
+            Gen.extensionEarlyData, Gen.extensionPSKModes, Gen.extensionPreSharedKey] := by decide
+
+/-- a ServerHello with every extension switched on -/
+def shAll : ServerHello :=
+  ⟨771, List.replicate 32 1, [], 0, 0, true, true, true, [], true, [104], [[1]], 772, 29, [1], true, 0, [0], [1], 29, []⟩
+
+theorem serverHello_extension_tags :
+    (shExts shAll).map (fun es => es.map Prod.fst) =
+      some [Gen.extensionStatusRequest, Gen.extensionSessionTicket, Gen.extensionRenegotiationInfo, Gen.extensionALPN,
+            Gen.extensionSCT, Gen.extensionSupportedVersions, Gen.extensionKeyShare, Gen.extensionPreSharedKey,
+            Gen.extensionCookie, Gen.extensionKeyShare, Gen.extensionSupportedPoints, Gen.extensionExtendedMasterSecret] := by decide
+
+theorem certificateRequestTLS13_extension_tags :
+    (certReq13Exts ⟨true, true, [1], [1], [[1]]⟩).map (fun es => es.map Prod.fst) =
+      some [Gen.extensionStatusRequest, Gen.extensionSCT, Gen.extensionSignatureAlgorithms,
+            Gen.extensionSignatureAlgorithmsCert, Gen.extensionCertificateAuthorities] := by decide
+
+/-! ### the hypotheses are satisfiable -/
+def chPsk : ClientHello :=
+  { ClientHello.empty with random := List.replicate 32 7, pskIdentities := [([1], 0)], pskBinders := [[2]] }
+set_option maxRecDepth 8000 in
+example : (marshalWithoutBinders chPsk).isOk = true := by decide
+example : sameLens [[9]] chPsk.pskBinders = true := by decide
+set_option maxRecDepth 8000 in
+example : (updateScenario chPsk true [[9]]).isOk = true := by decide
+example : sameLens [[9, 9]] chPsk.pskBinders = false := by decide
+example : ValidCH chAll :=
+  ⟨by simp [chAll], by simp [chAll], by simp [chAll], by simp [chAll], by simp [chAll], by simp [chAll],
+   by simp [chAll], by simp [chAll], by simp [chAll], by simp [chAll]⟩
 
 end ZV.C30
